@@ -15,9 +15,9 @@ RULE = ("(a) Hypothesis-generated Hermitian coupling operators O = V diag(o) V^d
         "distinct = distinct canonical JSON of the case.")
 TECHNIQUE = "Hypothesis property-based testing: validity predicate on Bath's diagonalisation + metamorphic basis-change relation on dynamics"
 LEVEL_TEXT = 'Thousands of generated Hermitian coupling operators (repeated/zero eigenvalues, structured and generic rotations) must be accepted with a unitary transform, real spectrum and exact reconstruction; TEMPO and PT-TEMPO dynamics of a rotated problem must equal the rotated dynamics at every step within the truncation tolerance.'
-LEVEL_NOTE = 'Dynamics compared within c_T (N+1) epsrel + 1e-7 (c_T=100 TEMPO, 1000 PT-TEMPO) on conditioned inputs (D<=5).'
+LEVEL_NOTE = 'Dynamics compared within c_T (N+1) epsrel + 1e-7 (c_T=100 TEMPO, 1000 PT-TEMPO) on conditioned inputs (D<=3.5).'
 ASSUMPTIONS = [
-    "TEMPO inputs are conditioned (D <= 5) and size-coupled as in DESIGN section 4",
+    "TEMPO inputs are conditioned (D <= 3.5) and size-coupled as in DESIGN section 4",
     "near-diagonal operators (off-diagonals below numpy.allclose tolerance) are not generated",
 ]
 
